@@ -50,6 +50,7 @@ type upRes struct {
 	ok     bool
 	status string
 	digest *pb.Digest // digest reported by the server (splice, fetch)
+	acKey  string     // ac_*: the action key the ActionResult was uploaded under
 }
 
 type errAfterReader struct {
@@ -290,7 +291,7 @@ func (f *fx) upload(u upReq) upRes {
 		uuidCtr++
 		_, err := f.ac.UpdateActionResult(ctx, &pb.UpdateActionResultRequest{
 			ActionDigest: &pb.Digest{Hash: key, SizeBytes: 42}, ActionResult: ar})
-		return upRes{ok: err == nil, status: grpcStatus(err)}
+		return upRes{ok: err == nil, status: grpcStatus(err), acKey: key}
 	case "fetch", "fetch_nosri":
 		ob := originObj{body: u.wire, declLen: len(u.wire)}
 		if u.abortAfter >= 0 {
